@@ -2,6 +2,9 @@ import Driver.Util
 import DiskfsModel.Model.MetaCodec
 import DiskfsModel.Model.Ext4.InodeCodec
 import DiskfsModel.Model.Ext4.InodeAttrBytes
+import DiskfsModel.Model.Ext4.InodeWriteBack
+import DiskfsModel.Model.MetaRR
+import DiskfsModel.Model.MetaSqfs
 import DiskfsModel.Generated.Meta
 namespace Driver.Meta
 open Diskfs Driver Diskfs.Meta Diskfs.Ext4.InodeCodec
@@ -107,6 +110,109 @@ def nm (args : List String) : String :=
     let d := nmDec (e.length + 1) e
     s!"enc={if e.isEmpty then "-" else toHex e}\tdec={if d.isEmpty then "-" else toHex d}"
 
+/-! ### Rock Ridge time stamps, TF, PX big-endian halves -/
+
+def intOf (s : String) : Int := s.toInt?.getD 0
+
+/-- y:mo:d:h:mi:s:cs:off -/
+def stampOf (s : String) : Stamp :=
+  match s.splitOn ":" with
+  | [y, mo, d, h, mi, se, cs, off] => ⟨intOf y, mo.toNat!, d.toNat!, h.toNat!, mi.toNat!, se.toNat!, cs.toNat!, intOf off⟩
+  | _ => ⟨0, 0, 0, 0, 0, 0, 0, 0⟩
+
+def stampStr (s : Stamp) : String := s!"{s.year}:{s.month}:{s.day}:{s.hour}:{s.minute}:{s.second}:{s.csec}:{s.offset}"
+
+def stamp7 (args : List String) : String :=
+  let e := stamp7Enc (stampOf ((arg args "t").getD ""))
+  s!"enc={toHex e}\tdec={stampStr (stamp7Dec e)}"
+
+def stamp17 (args : List String) : String :=
+  let e := stamp17Enc (stampOf ((arg args "t").getD ""))
+  s!"enc={toHex e}\tdec={match stamp17Dec e with | none => "none" | some d => stampStr d}"
+
+def stamp17dec (args : List String) : String :=
+  match argHex args "b" with
+  | none => "bad-input"
+  | some b => s!"dec={match stamp17Dec b with | none => "none" | some d => stampStr d}"
+
+def slotsStr (sl : List (Option Stamp)) : String :=
+  ",".intercalate (sl.map fun x => match x with | none => "-" | some s => stampStr s)
+
+/-- meta.tf long=0|1 s1=<stamp> s2=… s64=… (absent kinds are not recorded) → the record and what parseTimestamps makes of it -/
+def tf (args : List String) : String :=
+  let long := n args "long" == 1
+  let slots := [1, 2, 4, 8, 16, 32, 64].map fun k => (arg args s!"s{k}").map stampOf
+  let e := tfEnc ⟨long, slots⟩
+  match tfDec e with
+  | none => s!"enc={toHex e}\tdec=none"
+  | some t => s!"enc={toHex e}\tdec={bn t.long}/{slotsStr t.slots}"
+
+def tfdec (args : List String) : String :=
+  match argHex args "b" with
+  | none => "bad-input"
+  | some b =>
+    match tfDec b with
+    | none => "dec=none"
+    | some t => s!"dec={bn t.long}/{slotsStr t.slots}"
+
+def pxbe (args : List String) : String :=
+  let p : Px := ⟨pxKindOfNat (n args "kind"), goMode args, n args "links", n args "uid", n args "gid", n args "serial"⟩
+  let (a, b, c, d) := pxBigEndian (pxEnc p)
+  let (a2, b2, c2, d2) := pxLittleEndian (pxEnc p)
+  s!"be={a}:{b}:{c}:{d}\tle={a2}:{b2}:{c2}:{d2}"
+
+/-! ### squashfs: id table blocks, the other inode types -/
+
+/-- meta.sqidblk n= base= step= widen= : ids base, base+step, … (mod 2^32) written in blocks and read back -/
+def sqidblk (args : List String) : String :=
+  let cnt := n args "n"
+  let ids := (List.range cnt).map fun j => (n args "base" + j * n args "step") % 4294967296
+  let blocks := idBlocksWr ids
+  let back := readIds (n args "widen" == 1) cnt blocks
+  s!"blocks={blocks.length}\tread={back.length}\tsum={back.foldl (fun a x => (a + x) % 4294967296) 0}\tlast={back.getLast?.getD 0}"
+
+def sqx (args : List String) : String :=
+  let typ := n args "typ"
+  let h : XHdr := ⟨typ, n args "mode", n args "uid", n args "gid", n args "mtime", n args "index"⟩
+  let links := n args "links"
+  let xa := n args "xattr"
+  let w := devWord (n args "major") (n args "minor")
+  let body : XBody :=
+    if typ == 10 then .lnk links ((argHex args "target").getD []) xa
+    else if typ == 4 || typ == 5 then .dev links w
+    else if typ == 11 || typ == 12 then .devx links w xa
+    else if typ == 6 || typ == 7 then .ipc links
+    else .ipcx links xa
+  let e := encX h body
+  match decX e with
+  | none => s!"enc={toHex e}\tdec=none"
+  | some (h2, b2, rest) =>
+    let bs := match b2 with
+      | .lnk l t x => s!"lnk:{l}:{if t.isEmpty then "-" else toHex t}:{x}"
+      | .dev l w2 => s!"dev:{l}:{(devSplit w2).1}:{(devSplit w2).2}"
+      | .devx l w2 x => s!"devx:{l}:{(devSplit w2).1}:{(devSplit w2).2}:{x}"
+      | .ipc l => s!"ipc:{l}"
+      | .ipcx l x => s!"ipcx:{l}:{x}"
+    s!"enc={toHex e}\tdec={h2.typ}:{h2.mode}:{h2.uid}:{h2.gid}:{h2.mtime}:{h2.index}/{bs}/{rest.length}\tbits={sqTypeBits h2.typ}"
+
+/-! ### ext4: the setters through the library's read-modify-write -/
+
+/-- meta.ext4rmw: as meta.ext4frame, through writeBack; keep=1: toBytes starts from the record read (repaired),
+    keep=0: from zeros (as found) -/
+def ext4rmw (args : List String) : String :=
+  match argHex args "before" with
+  | none => "bad-input"
+  | some b =>
+    let keep := n args "keep" == 1
+    let opt := fun (k : String) => let v := i args k; if v < 0 then none else some v.toNat
+    let after :=
+      match (arg args "op").getD "" with
+      | "chmod" => chmodRmw keep b (n args "perm")
+      | "chown" => chownRmw keep b (opt "uid") (opt "gid")
+      | "chtimes" => chtimesRmw keep b (ts args "cr") (ts args "at") (ts args "mt")
+      | _ => writeBack keep b
+    s!"after={toHex (blankCsum after)}"
+
 end Driver.Meta
 
 def main : IO Unit := Driver.runLoop fun op args =>
@@ -121,4 +227,13 @@ def main : IO Unit := Driver.runLoop fun op args =>
   | "meta.sqids" => Driver.Meta.sqids args
   | "meta.px" => Driver.Meta.px args
   | "meta.nm" => Driver.Meta.nm args
+  | "meta.stamp7" => Driver.Meta.stamp7 args
+  | "meta.stamp17" => Driver.Meta.stamp17 args
+  | "meta.stamp17dec" => Driver.Meta.stamp17dec args
+  | "meta.tf" => Driver.Meta.tf args
+  | "meta.tfdec" => Driver.Meta.tfdec args
+  | "meta.pxbe" => Driver.Meta.pxbe args
+  | "meta.sqidblk" => Driver.Meta.sqidblk args
+  | "meta.sqx" => Driver.Meta.sqx args
+  | "meta.ext4rmw" => Driver.Meta.ext4rmw args
   | _ => "unknown-op"
